@@ -19,7 +19,9 @@ m = {"version": 1, "setup_cmd": "./check --setup",
                "baseline_off_cmd": "cd /repo && /venv/bin/python -m pytest -ra -q -p no:cacheprovider --timeout=900 --continue-on-collection-errors",
                "source_commits": [], "add_only": True},
      "engines": [{"name": "tlc", "path": "/opt/veriftools/tla/tla2tools.jar", "serves_properties": [c["property_id"] for c in checks],
-                  "kind_free_text": "TLC 1.8 model checker: design-level model checking of spec/*.tla, -simulate for spec->code behaviours, trace validation of ndjson traces recorded from the real code"}],
+                  "kind_free_text": "TLC 1.8 model checker: design-level model checking of spec/*.tla, -simulate for spec->code behaviours, trace validation of ndjson traces recorded from the real code"},
+                 {"name": "apalache", "path": "/opt/veriftools/apalache/bin/apalache-mc", "serves_properties": ["C04"],
+                  "kind_free_text": "Apalache 0.58 symbolic model checker: inductive-invariant obligations (Init => IndInv, IndInv /\\ Next => IndInv') of spec/WaitDepInd.tla, lifting the bounded TLC result on the wait insertion to streams of unbounded length"}],
      "checks": checks, "not_applicable": na,
      "notes": "All checks are ./check <id>; specs in /verif/spec, harness in /verif/harness; known findings in /verif/known_findings.json"}
 json.dump(m, open('/verif/MANIFEST.json','w'), indent=1)
